@@ -47,5 +47,14 @@ CLAIMED['C06'] = {
     'note': 'Bounded list lengths/name lengths (props/c06.py META); assumes a fresh Policy per evaluation (syntactic glue check on target_worker_thread).',
 }
 
+CLAIMED['C05'] = {
+    'engines': 'ZX',
+    'technique': 'symbolic execution of Policy.create -> Policy(policy_data) -> evaluate over peers with symbolic names/sizes; single-perturbation drift harnesses; finite exhaustive run over the built-in table',
+    'text': 'For every peer within the bounds (names over the whole RFC 4251 alphabet, sizes of the listed digit counts, both roles) z3 shows the generated '
+            'policy loads, reproduces every field, passes on the same peer, and fails naming the field for every single-position perturbation; an arbitrary '
+            'built-in-shaped policy and every current built-in pass on the peer mirrored from them.',
+    'note': 'json replaced by a token-preserving stub in the symbolic run (real json in the per-path pristine run); -M file writing outside.',
+}
+
 NOT_APPLICABLE = {
 }
